@@ -551,9 +551,23 @@ func checkRegressions(run *report.Run) error {
 	return nil
 }
 
+func allRegistered(produces []string) bool {
+	for _, p := range produces {
+		found := false
+		for _, k := range Registry {
+			if k == p {
+				found = true
+			}
+		}
+		if !found {
+			return false
+		}
+	}
+	return true
+}
+
 // Check is the body of `vcheck check C05`.
 func Check(run *report.Run, n int) error {
-	Setup()
 	Open = map[string]bool{}
 	if known, err := report.LoadKnown(); err == nil {
 		for _, f := range known.Findings {
@@ -562,6 +576,103 @@ func Check(run *report.Run, n int) error {
 			}
 		}
 	}
+	// the random stream is served in three segments between which the global registry grows: requests
+	// are answered while a produced type has no writer yet, and again after it got one (a lookup that
+	// remembers a miss would answer differently from a fresh process; the model is told the registry
+	// of the moment)
+	base := rng.New(run.Seed*1000003 + 5)
+	reported := map[string]int{}
+	formerF07, formerF07Sharp := 0, 0
+	const batch = 5000
+	segment := func(from, to int) error {
+		for start := from; start < to; start += batch {
+			end := start + batch
+			if end > to {
+				end = to
+			}
+			cases := make([]*Case, 0, end-start)
+			for i := start; i < end; i++ {
+				c := Gen(base.Fork(uint64(i)))
+				if !allRegistered(c.Produces) {
+					// outside the quantifier (a produced type without a writer): served as traffic only —
+					// whatever the lookup remembers from it must not matter once the writer exists
+					Execute(c, c.Accept(), 1)
+					run.Count("traffic:produced-type-without-a-writer-yet(not judged)")
+					continue
+				}
+				cases = append(cases, c)
+			}
+			rs, err := Eval(cases)
+			if err != nil {
+				return err
+			}
+			for _, r := range rs {
+				if err := r.CrossCheck(); err != nil {
+					return err
+				}
+				run.Evaluations++
+				run.TracesValidated++
+				run.Count("branch:" + r.Tag)
+				run.Count("default:" + map[bool]string{true: "unset", false: r.Case.Default}[r.Case.Default == ""])
+				run.Count("router:" + r.Case.Router)
+				switch {
+				case r.Case.Absent:
+					run.Count("accept:absent")
+				case r.Case.Accept() == "":
+					run.Count("accept:empty")
+				default:
+					run.Count(fmt.Sprintf("accept:%d-elements", len(r.Case.Ranges)))
+				}
+				if strings.ContainsAny(r.Case.Accept()+r.Case.Variant(), " \t") {
+					run.Count("accept:with-optional-whitespace")
+				}
+				if r.Class["F07"] {
+					// class of the repaired F07: measured, never excused
+					formerF07++
+					run.Count("former-F07-class(no Accept value, default set)")
+					if r.Case.Default != r.Case.Produces[0] {
+						formerF07Sharp++
+						run.Count("former-F07-class:default-is-not-the-first-produced-type(the unrepaired code answers these wrongly)")
+					}
+				}
+				if r.Real[0].Kind != "r406" || r.RealV[0].Kind != "r406" {
+					run.Distinct[r.Case.Signature()] = true
+				}
+				if r.Real[0].Kind == "r406" != (r.RealV[0].Kind == "r406") {
+					run.Count("router-admits-only-one-spelling(tab next to a separator; router trims blanks only)")
+				}
+				if len(run.Samples) < 5 && r.Real[0].Kind == "ct" && len(r.Case.Ranges) > 1 && run.Evaluations%11 == 0 {
+					run.Sample(map[string]interface{}{"line": r.Line, "input": r.Human()})
+				}
+				v := r.Judge()
+				switch v.Kind {
+				case "":
+				case "known":
+					run.KnownHits[v.Known]++
+					run.Count("known:" + v.Known)
+				case "repaired":
+					run.Count("holds-inside-known-class-but-differs-from-model")
+				default:
+					if reported[v.Kind] < 3 {
+						reported[v.Kind]++
+						reportCase(run, r, v, true)
+					}
+					run.Count("failing:" + v.Kind)
+				}
+			}
+		}
+		return nil
+	}
+	SetupPhase(0)
+	run.Count("registry-phase-0(built-in writers only)")
+	if err := segment(0, n/5); err != nil {
+		return err
+	}
+	SetupPhase(1)
+	if err := segment(n/5, 2*n/5); err != nil {
+		return err
+	}
+	Setup()
 	// 1a. regressions of repaired findings: must pass
 	if err := checkRegressions(run); err != nil {
 		return err
@@ -605,78 +716,8 @@ func Check(run *report.Run, n int) error {
 			}
 		}
 	}
-	// 2. the random stream
-	base := rng.New(run.Seed*1000003 + 5)
-	reported := map[string]int{}
-	formerF07, formerF07Sharp := 0, 0
-	const batch = 5000
-	for start := 0; start < n; start += batch {
-		end := start + batch
-		if end > n {
-			end = n
-		}
-		cases := make([]*Case, 0, end-start)
-		for i := start; i < end; i++ {
-			cases = append(cases, Gen(base.Fork(uint64(i))))
-		}
-		rs, err := Eval(cases)
-		if err != nil {
-			return err
-		}
-		for _, r := range rs {
-			if err := r.CrossCheck(); err != nil {
-				return err
-			}
-			run.Evaluations++
-			run.TracesValidated++
-			run.Count("branch:" + r.Tag)
-			run.Count("default:" + map[bool]string{true: "unset", false: r.Case.Default}[r.Case.Default == ""])
-			run.Count("router:" + r.Case.Router)
-			switch {
-			case r.Case.Absent:
-				run.Count("accept:absent")
-			case r.Case.Accept() == "":
-				run.Count("accept:empty")
-			default:
-				run.Count(fmt.Sprintf("accept:%d-elements", len(r.Case.Ranges)))
-			}
-			if strings.ContainsAny(r.Case.Accept()+r.Case.Variant(), " \t") {
-				run.Count("accept:with-optional-whitespace")
-			}
-			if r.Class["F07"] {
-				// class of the repaired F07: measured, never excused
-				formerF07++
-				run.Count("former-F07-class(no Accept value, default set)")
-				if r.Case.Default != r.Case.Produces[0] {
-					formerF07Sharp++
-					run.Count("former-F07-class:default-is-not-the-first-produced-type(the unrepaired code answers these wrongly)")
-				}
-			}
-			if r.Real[0].Kind != "r406" || r.RealV[0].Kind != "r406" {
-				run.Distinct[r.Case.Signature()] = true
-			}
-			if r.Real[0].Kind == "r406" != (r.RealV[0].Kind == "r406") {
-				run.Count("router-admits-only-one-spelling(tab next to a separator; router trims blanks only)")
-			}
-			if len(run.Samples) < 5 && r.Real[0].Kind == "ct" && len(r.Case.Ranges) > 1 && run.Evaluations%11 == 0 {
-				run.Sample(map[string]interface{}{"line": r.Line, "input": r.Human()})
-			}
-			v := r.Judge()
-			switch v.Kind {
-			case "":
-			case "known":
-				run.KnownHits[v.Known]++
-				run.Count("known:" + v.Known)
-			case "repaired":
-				run.Count("holds-inside-known-class-but-differs-from-model")
-			default:
-				if reported[v.Kind] < 3 {
-					reported[v.Kind]++
-					reportCase(run, r, v, true)
-				}
-				run.Count("failing:" + v.Kind)
-			}
-		}
+	if err := segment(2*n/5, n); err != nil {
+		return err
 	}
 	if n >= 2000 && formerF07Sharp < n/400 {
 		return fmt.Errorf("the stream hardly visits the class of the repaired finding F07 (%d of %d cases, %d of them with a default that is not the first produced type): a regression there would go unnoticed", formerF07, n, formerF07Sharp)
